@@ -110,7 +110,7 @@ def cases(chunk):
         # hundreds of nodes (requests sampled)
         n = chunk["size"]
         spec = G.serpentine(rng, n) if chunk["style"] == "serpentine" else G.big_graph(rng, n, 5 * n, geom=True)
-        yield {"kind": "big", "g": spec, "ord": rng.randrange(1 << 30)}
+        yield {"kind": "big", "g": spec, "ord": rng.randrange(1 << 30), "limit_x": 10}
     else:
         raise M.HarnessError("unknown chunk kind %r" % kind)
 
